@@ -395,9 +395,13 @@ private:
 		static_assert(PrototypeInfo::index >= 0, "Can't find invoker for the given argument types.");
 		static_assert(std::tuple_size<typename PrototypeInfo::ArgsTuple>::value == 1 + sizeof...(Args), "Arguments count mismatch.");
 
+		// The event must be obtained in its own statement: the evaluation order of function
+		// arguments is unspecified, so within one call expression the arguments may be moved
+		// into the tuple before getEvent reads them.
+		const EventType_ e = GetEvent::getEvent(std::forward<T>(first), args...);
 		doEnqueueItem(QueuedItemType(
 			PrototypeInfo::index,
-			GetEvent::getEvent(std::forward<T>(first), args...),
+			e,
 			&HeterEventQueueBase::doDispatchItem<PrototypeInfo>,
 			typename PrototypeInfo::ArgsTuple(std::forward<T>(first), std::forward<Args>(args)...)
 		));
@@ -418,9 +422,13 @@ private:
 		static_assert(PrototypeInfo::index >= 0, "Can't find invoker for the given argument types.");
 		static_assert(std::tuple_size<typename PrototypeInfo::ArgsTuple>::value == sizeof...(Args), "Arguments count mismatch.");
 
+		// The event must be obtained in its own statement: the evaluation order of function
+		// arguments is unspecified, so within one call expression the arguments may be moved
+		// into the tuple before getEvent reads them.
+		const EventType_ e = GetEvent::getEvent(std::forward<T>(first), args...);
 		doEnqueueItem(QueuedItemType(
 			PrototypeInfo::index,
-			GetEvent::getEvent(std::forward<T>(first), args...),
+			e,
 			&HeterEventQueueBase::doDispatchItem<PrototypeInfo>,
 			typename PrototypeInfo::ArgsTuple(std::forward<Args>(args)...)
 		));
